@@ -364,6 +364,14 @@ CLAIMED["C20"]["technique"] = "Lean 4 proof (rank invariant, BUILD soundness and
 CLAIMED["C09"]["text"] += (" Histories on one object (re-run on the same input object, unit costs changed in place and back) are part of "
     "the metamorphic runs.")
 
+# ---- last wave ----
+CLAIMED["C05"]["text"] += " ANY is also proved for reconcile_exhaustive (every cost vector) and for the multifurcation loop of the extended solvers."
+CLAIMED["C15"]["text"] += (" 'One picture environment' is proved on the ASSEMBLED TEXT: every filling the drawing produces (coordinates, colour "
+    "names, labels from brace-free names and families) is free of the delimiter texts, so the text contains each delimiter exactly once "
+    "(C15_delims_once, C15_structure_text).")
+CLAIMED["C12"]["text"] += (" The CLI glue (eval_cost's expression grammar, read_input, dump_results, status logic, draw's output-type choice) is "
+    "modelled and tied; `draw` to the standard output is exercised through the real parser (fixed defect F-DRAW-STDOUT).")
+
 PENDING = "check not built yet in this round (planned: Lean 4 model + proof + correspondence, see DESIGN.md section 7)"
 
 
